@@ -33,6 +33,7 @@ C13 ==
   /\ (E.rv.status = "nil" /\ E.vidents # E.idents) => Report("C13", "items lost or reordered " \o E.name)
   /\ (E.rv.status = "nil" /\ E.framed /\ E.vnsep # E.nsep) => Report("C13", "separators " \o E.name)
   /\ (E.again = "differs") => Report("C13", "the same list renders differently the second time " \o E.name)
+  /\ (E.again = "placeholder") => Report("C13", "an item that was null when the list was first rendered stays invisible after it got a token " \o E.name)
   /\ (E.again = "slice") => Report("C13", "a list built from a slice changes the caller's slice: the next list built from it renders differently " \o E.name)
 
 CfgAlias(al) == IF al = "" THEN Cfg0 ELSE IF al = "@pkg" THEN [Cfg0 EXCEPT !.prefix = "pkg"] ELSE [Cfg0 EXCEPT !.hints = [p \in {"x/d"} |-> Def(al, TRUE)]]
